@@ -2,7 +2,7 @@
 """import_seeds.py -- copy confirmed seeded changes from /tmp/seed_out into /verif/seeded/<prop>-<k>/ ."""
 import json, os, shutil, sys, glob
 V = os.path.dirname(os.path.dirname(os.path.abspath(__file__)))
-FIRST_MISSED = {"C06-1", "C06-3", "C07-1", "C08-2", "C17-3", "C10-2", "C15-2", "C15-3", "C19-2", "C13-1", "C04-1", "C11-3", "C05-2", "C05-3", "C05-6", "C06-6", "C07-5", "C10-4", "C10-6", "C13-6", "C20-5", "C09-4", "C11-4", "C12-6", "C15-6", "C19-6", "C05-9", "C06-9", "C07-9", "C11-7", "C20-9"}
+FIRST_MISSED = {"C06-1", "C06-3", "C07-1", "C08-2", "C17-3", "C10-2", "C15-2", "C15-3", "C19-2", "C13-1", "C04-1", "C11-3", "C05-2", "C05-3", "C05-6", "C06-6", "C07-5", "C10-4", "C10-6", "C13-6", "C20-5", "C09-4", "C11-4", "C12-6", "C15-6", "C19-6", "C05-9", "C06-9", "C07-9", "C11-7", "C20-9", "C07-10"}
 ROUNDS = [("/tmp/seed_out", 0), ("/tmp/seed_out2", 3), ("/tmp/seed_out3", 6), ("/tmp/seed_out4", 9)]     # later rounds of independent agents: 4..6, 7..9
 for d, off in [(d, off) for root, off in ROUNDS for d in sorted(glob.glob(root + "/C*/*"))]:
     prop, k = d.split("/")[-2], d.split("/")[-1]
